@@ -65,7 +65,9 @@ TRUSTED_BASE = [
 ASSUMPTIONS = [
     "messages contain no backslash and no ESC (backslash-escaped tags are outside the property's quantifier; "
     "the model covers them but they are not generated)",
-    "section outputs: a single fresh section per stream (stacked sections are C15's subject)",
+    "section outputs: a single section per stream (stacked sections are C15's subject); histories of writes, "
+    "overwrites and clears on it only without decoration, where every call must append what it writes on a "
+    "fresh section (the model answers call by call)",
     "indent_lines_rendered (formatting keeps every line's indentation) is proved for the formatter entry points "
     "on backslash-free text; that Output.write hands exactly the indented text to them is indent_lines",
     "streams are BufferedOutputStreams (no ANSI capability of their own); decoration is forced by the formatter",
@@ -316,6 +318,7 @@ OBJ_METHODS = {
     "section": ["write", "write_line", "write_raw", "write_line_raw", "overwrite"],
 }
 FMTS = ["ansi", "ansi_unforced", "plain", "null"]
+UNDECORATED = ["ansi_unforced", "plain", "null"]
 GATES = [(False, 0, None), (False, 0, None), (False, 0, None), (False, 1, 1), (False, 0, 1), (True, 0, None),
          (False, 2, 6), (False, 0, 0)]
 LINE_METHODS = {"write_line", "write_line_raw", "error_line", "error_line_raw", "overwrite"}
@@ -404,6 +407,25 @@ def generate(tier, rng):
         q, v, f = rng.choice(GATES)
         yield {"k": "write", "obj": obj, "method": rng.choice(OBJ_METHODS[obj]), "fmt": rng.choice(FMTS),
                "indent": rng.randint(0, 4), "ast": gen_nodes(rng, 3, 4), "quiet": q, "verbosity": v, "flags": f}
+    # ---- undecorated section outputs with a history: clear() / overwrite() after a write degrade to plain
+    # appended lines without control codes
+    for fmt in UNDECORATED:
+        for n in (0, 2):
+            for a in FIXED_TEXTS[:4]:
+                for b in FIXED_TEXTS[:3]:
+                    for mid in (["clear", None], ["clear", 1], None):
+                        for last in ("overwrite", "write_line", "write"):
+                            ops = [["write_line", a]] + ([mid] if mid else []) + [[last, b]]
+                            yield {"k": "secseq", "fmt": fmt, "indent": n, "ops": ops}
+    for _ in range(20000 if thorough else 1500):
+        ops = []
+        for _ in range(rng.randint(2, 6)):
+            r = rng.random()
+            if r < 0.3:
+                ops.append(["clear", rng.choice([None, None, 1, 2, 5])])
+            else:
+                ops.append([rng.choice(OBJ_METHODS["section"]), gen_nodes(rng, 2, 3)])
+        yield {"k": "secseq", "fmt": rng.choice(UNDECORATED), "indent": rng.randint(0, 3), "ops": ops}
     # ---- scopes
     per_level = [(t, inc, n) for t in ("io", "out", "err") for inc in (False, True) for n in (1, 3)]
     k = 0
@@ -559,6 +581,22 @@ def _run_write(case):
     return _guard(go)
 
 
+def _run_secseq(case):
+    from clikit.io.buffered_io import BufferedIO
+
+    def go():
+        io = BufferedIO(formatter=_formatter(case["fmt"]))
+        with io.output.indent(case["indent"]):
+            sec = io.output.section()
+        for op, arg in case["ops"]:
+            if op == "clear":
+                sec.clear(arg)
+            else:
+                getattr(sec, op)(raw_of(arg))
+        return {"out": io.fetch_output(), "err": io.fetch_error()}
+    return _guard(go)
+
+
 class _Boom(Exception):
     pass
 
@@ -598,7 +636,8 @@ def _run_scopes(case):
 
 
 def run_impl(case):
-    return {"msg": _run_msg, "bad": _run_bad, "sgr": _run_sgr, "write": _run_write, "scopes": _run_scopes}[case["k"]](case)
+    return {"msg": _run_msg, "bad": _run_bad, "sgr": _run_sgr, "write": _run_write, "scopes": _run_scopes,
+            "secseq": _run_secseq}[case["k"]](case)
 
 
 # --------------------------------------------------------------------------- the model side
@@ -657,6 +696,12 @@ def model_requests(case):
         return [{"m": "c11.write", "kind": obj, "method": case["method"], "fmt": case["fmt"], "stream_ansi": False,
                  "indent": case["indent"], "quiet": case["quiet"], "verbosity": case["verbosity"],
                  "flags": case["flags"], "text": raw, "table": _table(raw)}]
+    if k == "secseq":
+        # without decoration a section is a plain output: every call appends what the same call writes on a
+        # fresh section, clear() writes nothing
+        return [{"m": "c11.write", "kind": "section", "method": op, "fmt": case["fmt"], "stream_ansi": False,
+                 "indent": case["indent"], "quiet": False, "verbosity": 0, "flags": None, "text": raw_of(arg),
+                 "table": _table(raw_of(arg))} for op, arg in case["ops"] if op != "clear"]
     return [{"m": "c11.scopes", "prog": case["prog"], "out": case["out"], "err": case["err"]}]
 
 
@@ -682,6 +727,14 @@ def model_obs(case, answers):
         if case["obj"] == "error_output":
             return {"out": "", "err": a["out"]}
         return {"out": a["out"], "err": a["err"]}
+    if k == "secseq":
+        out = []
+        for x in answers:
+            a = _ans(x)
+            if "err" in a and "out" not in a:
+                return a
+            out.append(a["out"])
+        return {"out": "".join(out), "err": ""}
     a = answers[0]
     return {"out": a["out"], "err": a["err"], "raised": a["raised"], "indent": a["indent"]}
 
@@ -814,6 +867,32 @@ def _oracle_write(case, obs):
     return None
 
 
+def _oracle_secseq(case, obs):
+    if "err" in obs and "out" not in obs:
+        return "section history raised %s" % obs["err"]
+    if obs["err"]:
+        return "bytes on the wrong stream"
+    data = obs["out"]
+    if ESC in data:
+        return "an undecorated section output emitted an escape byte: %r" % data
+    want = []
+    for op, arg in case["ops"]:
+        if op == "clear":
+            continue
+        raw = raw_of(arg)
+        if op in RAW_METHODS:
+            want.append(raw.rstrip("\n") + "\n" if op in LINE_METHODS else raw)
+            continue
+        text = raw if case["fmt"] == "null" else text_of(arg)
+        body = _expect_lines(raw, text, case["indent"])
+        if body is None:
+            return "harness: raw and stripped text have different line counts"
+        want.append(body + "\n" if op in LINE_METHODS else body)
+    if data != "".join(want):
+        return "undecorated section: wrote %r, required the plain appended lines %r" % (data, "".join(want))
+    return None
+
+
 def _oracle_scopes(case, obs):
     if "err" in obs and "out" not in obs:
         return "scope program raised %s" % obs["err"]
@@ -865,6 +944,10 @@ def oracle(case, obs):
         return _oracle_write(case, obs)
     if k == "scopes":
         return _oracle_scopes(case, obs)
+    if k == "secseq":
+        if not all(op == "clear" or well_formed_text(arg) for op, arg in case["ops"]):
+            return None
+        return _oracle_secseq(case, obs)
     return None
 
 
@@ -891,6 +974,11 @@ def nontrivial_key(case, obs):
         if prog_depth(case["prog"]) == 0:
             return None
         return "p" + _h(repr(case))
+    if k == "secseq":
+        ops = [op for op, _ in case["ops"]]
+        if not any(o in ("clear", "overwrite") for o in ops[1:]):
+            return None
+        return "q" + _h(repr(case))
     return None
 
 
@@ -906,6 +994,9 @@ def bucket(case, obs):
         return "sgr:%s:attrs=%d" % (case["route"], len(case["attrs"]))
     if k == "write":
         return "write:%s.%s:%s" % (case["obj"], case["method"], case["fmt"])
+    if k == "secseq":
+        return "secseq:%s:ops=%d%s" % (case["fmt"], len(case["ops"]),
+                                       ",clear" if any(op == "clear" for op, _ in case["ops"]) else "")
     return "scopes:depth=%d%s" % (prog_depth(case["prog"]), ",raised" if obs.get("raised") else "")
 
 
@@ -973,6 +1064,18 @@ def shrink(case):
         m = case["msg"]
         for i in range(len(m)):
             yield dict(case, msg=m[:i] + m[i + 1:])
+    elif k == "secseq":
+        ops = case["ops"]
+        for i in range(len(ops)):
+            if len(ops) > 1:
+                yield dict(case, ops=ops[:i] + ops[i + 1:])
+            if ops[i][0] != "clear":
+                for nodes in _shrink_nodes(ops[i][1]):
+                    nodes = normalise(nodes)
+                    if well_formed_text(nodes):
+                        yield dict(case, ops=ops[:i] + [[ops[i][0], nodes]] + ops[i + 1:])
+        if case["indent"]:
+            yield dict(case, indent=0)
 
 
 def neighbours(case):
